@@ -483,24 +483,27 @@ func (env *Env) evalCall(cl *Clause, x *ast.CallExpr) Value {
 		case SymIface:
 			return u.readElem(st, iv.R, iv.Idx, iv.Path+"@"+relType(T), T)
 		}
-	case "ncalls":
-		n := 0
-		for range st.trace {
-			n++
+	case "ncalls": // contract calls and callbacks recorded so far (concrete ghost trace)
+		return IntV{IntK(int64(len(st.trace))), true}
+	case "cbcalls": // number of calls through the unknown callback so far (symbolic trace)
+		if st.tlen == nil {
+			return IntV{IntK(0), true}
 		}
-		return IntV{IntK(int64(n)), true}
-	case "callArg":
-		k := env.eval(cl, x.Args[0]).(IntV)
-		if k.T.C != nil && int(k.T.C.Int64()) < len(st.trace) && k.T.C.Sign() >= 0 {
-			return st.trace[k.T.C.Int64()].args[0]
+		return IntV{st.tlen, true}
+	case "cbArg":
+		k := toInt(env.eval(cl, x.Args[0]).(IntV))
+		T := cl.Info.Types[x].Type
+		srt, sg, _ := intSort(T)
+		if st.targ == nil || st.targ.sort() != srt {
+			return IntV{Fresh("cbarg", srt), sg}
 		}
-		return u.havoc(st, cl.Info.Types[x].Type, "callarg")
-	case "callRet":
-		k := env.eval(cl, x.Args[0]).(IntV)
-		if k.T.C != nil && int(k.T.C.Int64()) < len(st.trace) && k.T.C.Sign() >= 0 {
-			return st.trace[k.T.C.Int64()].ret
+		return IntV{st.targ.read(k), sg}
+	case "cbRet":
+		k := toInt(env.eval(cl, x.Args[0]).(IntV))
+		if st.tret == nil {
+			return BoolV{Fresh("cbret", SortBool)}
 		}
-		return u.havoc(st, cl.Info.Types[x].Type, "callret")
+		return BoolV{st.tret.read(k)}
 	case "ite":
 		c := env.eval(cl, x.Args[0]).(BoolV).T
 		a, b := env.eval(cl, x.Args[1]), env.eval(cl, x.Args[2])
